@@ -3,7 +3,7 @@ from __future__ import annotations
 
 from .common import *   # noqa: F401,F403
 
-LEAF = ['Leaf_special', 'Leaf_note', 'Leaf_build', 'Leaf_timed', 'Leaf_dispatch', 'Leaf_tracks', 'Leaf_chart', 'Leaf_fromfile']      # translated functions this property's model relies on (Tie/<name>.v)
+LEAF = ['Leaf_special', 'Leaf_note', 'Leaf_build', 'Leaf_timed', 'Leaf_dispatch', 'Leaf_tracks', 'Leaf_chart', 'Leaf_fromfile', 'Leaf_meta']      # translated functions this property's model relies on (Tie/<name>.v)
 RULE = ("one instrument section per case: 0-8 star-power phrases ordered by start tick (adjacent, nested, overlapping, "
         "zero-length, before/after all notes) and note ticks drawn from start-1/start/end-1/end of every phrase plus random ticks, the notes unsustained or held for 1..2000 ticks (past phrase ends, over later notes); "
         "a case is non-trivial when it has >= 2 phrases and at least one note inside and one outside a phrase; distinct by (phrases, notes)")
